@@ -3,6 +3,7 @@
 # certain rights in this software.
 import numpy
 
+from jaqalpaq.error import JaqalError
 from jaqalpaq.core.algorithm.walkers import TraceSerializer
 from jaqalpaq.core.result import ProbabilisticSubcircuit, ReadoutSubcircuit
 from jaqalpaq.emulator.backend import IndependentSubcircuitsBackend
@@ -61,7 +62,10 @@ class UnitarySerializedEmulator(IndependentSubcircuitsBackend):
             argv = []
             # This capture the quantum arguments to the gate --- the qubit index
             qind = []
-            gatedef = gatedefs[gate.name]
+            try:
+                gatedef = gatedefs[gate.name]
+            except KeyError:
+                raise JaqalError(f"Gate {gate.name} is not a native gate") from None
             if gatedef.ideal_unitary is None:
                 # maybe add other checks?
                 continue
